@@ -36,12 +36,12 @@ func Verif_C09_state_message_table() {
 	var body []byte
 	var ncode, nsub uint8
 	switch typ {
-	case openMessageType:
+	case verifMsgOpen:
 		verifAssume(verifAnd(remoteID>>24 < 224, verifNot(verifAnd(cfg.localAS == cfg.remoteAS, cfg.localID == remoteID))))
 		body = mkOpenBody(cfg.remoteAS, 90, remoteID)
-	case updateMessageType:
+	case verifMsgUpdate:
 		body = verifBuf("update", 0, 32)
-	case notificationMessageType:
+	case verifMsgNotification:
 		ncode, nsub = verifU8("ncode"), verifU8("nsub")
 		body = append([]byte{ncode, nsub}, verifBuf("ndata", 0, 8)...)
 	}
@@ -50,7 +50,7 @@ func Verif_C09_state_message_table() {
 	// when the first one ends the session)
 	pipelined := verifChoose("pipelined-keepalive", 2) == 1
 	if pipelined {
-		conn.addFrame(keepAliveMessageType, nil)
+		conn.addFrame(verifMsgKeepalive, nil)
 		verifDelayBound(2) // reader / FSM schedules matter here: all with at most 2 delays
 	}
 	pl := newMonPlugin()
@@ -63,8 +63,8 @@ func Verif_C09_state_message_table() {
 	}
 	to, err := c09Run(f, state)
 	verifQuiesce()
-	legal := (state == stOpenSent && typ == openMessageType) || (state == stOpenConfirm && typ == keepAliveMessageType) ||
-		(state == stEstablished && (typ == keepAliveMessageType || typ == updateMessageType))
+	legal := (state == stOpenSent && typ == verifMsgOpen) || (state == stOpenConfirm && typ == verifMsgKeepalive) ||
+		(state == stEstablished && (typ == verifMsgKeepalive || typ == verifMsgUpdate))
 	switch {
 	case legal && state == stOpenSent:
 		verifAssert("open-in-opensent-progresses", verifAnd(to == openConfirmState, err == nil))
@@ -82,7 +82,7 @@ func Verif_C09_state_message_table() {
 		verifAssert("established-ends-idle-on-eof", to == idleState && err != nil)
 		verifAssert("eof-is-silent", len(conn.writes) == 0)
 		verifAssert("conn-closed", conn.closed)
-		if typ == updateMessageType {
+		if typ == verifMsgUpdate {
 			verifAssert("update-delivered-once", len(pl.updates) == 1)
 			if len(pl.updates) == 1 {
 				verifAssertBytesEq("update-bytes", pl.updates[0], body)
@@ -91,7 +91,7 @@ func Verif_C09_state_message_table() {
 			verifAssert("keepalive-not-delivered", len(pl.updates) == 0)
 		}
 		verifCover("legal-established")
-	case typ == notificationMessageType:
+	case typ == verifMsgNotification:
 		verifAssert("notification-received-goes-idle", to == idleState)
 		verifAssert("no-notification-in-reply", len(conn.writes) == 0)
 		verifAssert("conn-closed", conn.closed)
@@ -175,9 +175,9 @@ func Verif_C09_second_session_on_reused_fsm() {
 	verifAssert("second-session-on-same-fsm", c2 != c1 && e.p.fsms[out] == f && e.pl.nEstab == 2)
 	switch verifChoose("end", 3) {
 	case 0:
-		c2.send(notificationMessageType, []byte{verifU8("ncode"), 0})
+		c2.send(verifMsgNotification, []byte{verifU8("ncode"), 0})
 	case 1:
-		c2.send(openMessageType, e.openBody())
+		c2.send(verifMsgOpen, e.openBody())
 	case 2:
 		verifFireTimer(f.holdTimer)
 	}
